@@ -56,6 +56,13 @@ def resolveRef (s : State Key Key) (sc : Scope) (r : String) : Option (AddrId Ke
   | ["s", id, kind] => do pure (.scr (← id.toNat?) (← kind.toNat?))
   | _ => none
 
+def refDesc (sc : Scope) (r : String) : Option String :=
+  match r.splitOn ":" with
+  | ["c", a, b, i] => some (scStr sc ++ ":" ++ a ++ ":" ++ b ++ ":" ++ i)
+  | ["k", id, _] => some ("k" ++ id)
+  | ["s", id, _] => some ("s" ++ id)
+  | _ => none
+
 def b01 (b : Bool) : String := if b then "1" else "0"
 
 def showInfo (i : Info) : String :=
@@ -92,7 +99,7 @@ def parseOp (s : State Key Key) (t : List String) : Option (Op Key Key) :=
   | some "next" => do pure (.next (← sc) (← n "a") (← n "n") (← (g "int").bind parseBool) (← n "h"))
   | some "extend" => do pure (.extend (← sc) (← n "a") (← n "last") (← (g "int").bind parseBool))
   | some "lookup" => do pure (.lookup (← sc) (← resolveRef s (← sc) (← g "ref")) (← n "h"))
-  | some "markused" => do pure (.markUsed (← sc) (← resolveRef s (← sc) (← g "ref")))
+  | some "markused" => do pure (.markUsed (← sc) (← resolveRef s (← sc) (← g "ref")) (← refDesc (← sc) (← g "ref")))
   | some "derive" => do pure (.derive (← sc) (← n "a") (← n "ac") (← n "b") (← n "i") (← n "h"))
   | some "importpriv" => do pure (.importPriv (← sc) (← n "k") (← (g "comp").bind parseBool) (← n "h"))
   | some "importpub" => do pure (.importPub (← sc) (← n "k") (← n "h"))
@@ -116,8 +123,11 @@ def stepLine (d : DS) (line : String) : DS × String :=
   | some "recreate" =>
     -- a second wallet created from the same seed issues the same addresses (C03_recreate_same): the model's
     -- issuance is a function of the root key alone, so the answer is constant
-    if d.st.created && !d.st.poisoned then (d, "ok || ") else (d, "err notcreated || ")
+    if !d.st.created then (d, "err notcreated || ") else
+    if d.st.poisoned then (d, "err poisoned || ") else (d, "ok || ")
   | _ =>
+    if !d.st.created then (d, "err notcreated || ") else
+    if d.st.poisoned then (d, "err poisoned || ") else
     match parseOp d.st t with
     | none => (d, "bad-op")
     | some op =>
